@@ -99,6 +99,8 @@ pub struct Profile {
     pub nontrivial: fn(&Trace) -> bool,
     /// number of leading configuration ops the shrinker must keep
     pub keep: fn(&[String]) -> usize,
+    /// regression profiles: case index -> fixed op list (then `script` is not used)
+    pub fixed: Option<fn(usize) -> Vec<String>>,
 }
 
 #[derive(Clone, Debug)]
@@ -149,7 +151,12 @@ pub fn run_ops(new_world: fn() -> Box<dyn World>, ops: &[String]) -> Vec<String>
 }
 
 /// Run a profile's script against a fresh world, recording the trace.
-pub fn run_script(p: &Profile, rng: &mut Rng, tier: Tier) -> Trace {
+pub fn run_script(p: &Profile, rng: &mut Rng, tier: Tier, case: usize) -> Trace {
+    if let Some(f) = p.fixed {
+        let ops = f(case);
+        let outs = run_ops(p.new_world, &ops);
+        return Trace { ops, outs };
+    }
     let mut world = (p.new_world)();
     let mut trace = Trace::default();
     let mut dead = false;
